@@ -37,7 +37,7 @@ for d in sorted(glob.glob(os.path.join(root, 'C*', 'm*', 'meta.json'))):
     c = caught.get('%s/%s' % (pid, mk), {})
     json.dump({
         'property': pid,
-        'origin': 'written by an independent sub-agent that saw only the property text and a scratch worktree of /repo (%s)' % ({'r1': 'first round', 'r2': 'second round, told to avoid the first round\'s changes', 'r3': 'third round, told to avoid the changes of rounds one and two'}.get(tag, tag)),
+        'origin': 'written by an independent sub-agent that saw only the property text and a scratch worktree of /repo (%s)' % ({'r1': 'first round', 'r2': 'second round, told to avoid the first round\'s changes', 'r3': 'third round, told to avoid the changes of rounds one and two', 'r6': 'sixth round: asked for changes that need something specific to manifest, told what round one had produced'}.get(tag, tag)),
         'what_changed': meta.get('what_changed'),
         'needs_to_manifest': meta.get('needs_to_manifest'),
         'why_suite_misses_it': meta.get('why_suite_misses_it'),
@@ -47,6 +47,7 @@ for d in sorted(glob.glob(os.path.join(root, 'C*', 'm*', 'meta.json'))):
             'demo_on_head': 'pass', 'demo_with_patch': 'fail (exit %s)' % r['demo_patched'], 'existing_suite_with_patch': 'pass'},
         'checks_that_report_it': sorted(set(([pid] if c.get('status') == 'CAUGHT' else []) + c.get('others', []))),
         'caught_by_own_property_check': c.get('status') == 'CAUGHT',
+        'clause': meta.get('clause'),
     }, open(os.path.join(out, 'meta.json'), 'w'), indent=1)
     n += 1
 print('stored', n)
